@@ -1,7 +1,7 @@
 """C10 -- Rule selection: FIRST takes the first matching rule, BEST the shortest result."""
 from core import rng_for, mk, bits_of, L, R, randbits, Buffer
 from schc_run import Batch, obs_bits, with_timeout, parse_model_bits, parser_for
-from schc_util import n_rule, n_pdesc, rules_tokens, tb, ref_compress, ref_rule_applies, DIRC
+from schc_util import n_rule, n_pdesc, rules_tokens, tb, ref_compress, ref_rule_applies, DIRC, gen_rule
 from gens import gen_parsed, gen_ruleset, b2s
 from microschc.rfc8724extras import Context
 from microschc.manager import ContextManager
@@ -87,6 +87,52 @@ def run(rep, tier, seed):
                 rep.hist['ruleset-with-fragmentation-rule'] = rep.hist.get('ruleset-with-fragmentation-rule', 0) + 1
             for strat in (MatchStrategy.FIRST, MatchStrategy.BEST):
                 one(b, rnd, stack, pkt, pd, rules, d, strat, 'select:%s:%s' % (stack, strat.value))
+    # packets that do not end on a byte boundary (a datagram cut inside its last byte still parses: the payload is what is left), under
+    # rule sets whose candidates differ by a few bits only; and rule sets that contain, before the rule to be chosen, compression rules
+    # with NO descriptor for the packet's direction or with no descriptor at all (they simply do not apply)
+    from schc_run import parser_for
+    from core import impl_outcome
+    for i in range(n // 3):
+        stack = ['UDP', 'CoAP', 'UDP', 'SCTP'][i % 4]
+        _, pkt, st, _pd = gen_parsed(rnd, stack)
+        cut = rnd.randint(1, 7) if i % 2 == 0 else 0
+        bits = b2s(pkt)
+        bits = bits[:len(bits) - cut]
+        o = impl_outcome(lambda: parser_for(stack).parse(mk(bits, L)))
+        if o[0] != 'OK':
+            continue
+        pd = o[1]
+        d = rnd.choice([DI.UP, DI.DOWN])
+        other = DI.DOWN if d == DI.UP else DI.UP
+        pd.direction = d
+        rules = gen_ruleset(rnd, pd, n=rnd.randint(2, 5), match_prob=1.0, kinds=('ns', 'ns', 'map', 'lsb'), direction=rnd.choice([DI.BIDIRECTIONAL, d]))
+        if i % 3 == 0:
+            from schc_util import prefix_free_ids
+            extra = gen_rule(rnd, pd, '0', kinds=('ns', 'vs'), direction=other)         # every descriptor for the OTHER direction only
+            used = [bits_of(r.id) for r in rules]
+            for cand in prefix_free_ids(rnd, 12):
+                if all(not cand.startswith(u) and not u.startswith(cand) for u in used):
+                    shape = rnd.choice(['other-direction-only', 'no-descriptor'])
+                    rules.insert(rnd.randrange(len(rules)), RuleDescriptor(id=mk(cand, rnd.choice([L, R])), field_descriptors=extra.field_descriptors if shape == 'other-direction-only' else []))
+                    rep.hist['ruleset-with-rule:' + shape] = rep.hist.get('ruleset-with-rule:' + shape, 0) + 1
+                    break
+        nrs = [n_rule(r) for r in rules]
+        npd = dict(n_pdesc(pd), dir=DIRC[d])
+        cands = [nr for nr in nrs if ref_rule_applies(npd, nr)]
+        outs = [ref_compress(npd, nr, DIRC[d]) for nr in cands]
+        cm = ContextManager(Context(id='c', description='', interface_id='i', parser_id=stack, ruleset=rules))
+        for strat in (MatchStrategy.FIRST, MatchStrategy.BEST):
+            out = obs_bits(with_timeout(lambda: cm.compress(mk(bits, L), direction=d, match_strategy=strat)))
+            fails = []
+            if not cands:
+                if out != ('EXC', 'RuleDescriptorMatchError'):
+                    fails.append('no rule applies but compress gave %s' % (str(out)[:100],))
+            elif None not in outs:
+                want = outs[0] if strat == MatchStrategy.FIRST else min(outs, key=len)
+                if out != ('OK', want):
+                    fails.append('%s strategy on a %d-bit packet returned %s (%s bits), expected %s (%d bits)' % (strat.value, len(bits), str(out)[:80], len(out[1]) if out[0] == 'OK' else '-', want[:80], len(want)))
+            line = ' '.join(['S', 'cmcompressp', stack, tb(bits), DIRC[d], 'F' if strat == MatchStrategy.FIRST else 'B'] + rules_tokens(nrs))
+            b.add('select-unaligned:%s:cut%d' % (strat.value, cut), line, out, parse_model_bits, fails, dict(layer='schc', op='cmcompress', stack=stack, packet_bits=bits, rules=nrs, direction=DIRC[d], strategy=strat.value), key=(line, i))
     # large datagrams: every candidate of BEST is longer than 65535 bits
     import packets as P
     for k in range(2 if tier == 'quick' else 12):
